@@ -50,13 +50,9 @@ def mutate(src, rng):
     nums = [m for m in NUM.finditer(src) if not mask[m.start()] and not src[max(0, m.start() - 7):m.start()].strip().endswith("#stage")]
     # literals that are delay sizes / tuple indices / `.0` projections are left alone (structure)
     nums = [m for m in nums if not re.search(r"(delay\s*\(\s*$|\.\s*$|\[\s*$)", src[max(0, m.start() - 12):m.start()])]
-    # known findings (C01): G5 `%` is computed differently by the two backends when a/b is inexact -> constants on a line with `%`
-    # are left alone; G4 a zero frequency fed to lib/osc.mmm `sinwave` gives 0x1d on the VM -> zero is not injected
-    def line_of(pos):
-        a = src.rfind("\n", 0, pos) + 1
-        b = src.find("\n", pos)
-        return src[a:(len(src) if b < 0 else b)]
-    nums = [m for m in nums if "%" not in line_of(m.start())]
+    # (former finding G5 of C01 -- `%` computed differently by the two back ends when a/b is inexact -- is repaired: constants next
+    # to `%` are mutated like any other); known finding G4: a zero frequency fed to lib/osc.mmm `sinwave` gives 0x1d on the VM
+    # -> zero is not injected
     ops = [m for m in OP.finditer(src) if not mask[m.start(1)]]
     kinds = []
     if nums:
